@@ -657,6 +657,64 @@ def check_lookup(ctx, tool):
                nontrivial=False)
 
 
+def check_creds_mirror(ctx, tool):
+    """What Enforcer.enforce() itself adds to the credentials before it
+    evaluates (it presents system_scope under the key `system` as well) the
+    tool adds to the credentials it evaluates with: the checks see the same
+    mapping either way."""
+    from ..enforce_model import enforce_table
+    prog = ctx.prog
+    te = enforce_table(ctx)
+    enf = te.enf
+    creds_p = enf.params[3] if len(enf.params) > 3 else 'creds'
+    lib = {}
+    for p in te.paths:
+        for e in p.events:
+            if e.kind == 'store' and isinstance(e.node, ast.Subscript) and \
+                    isinstance(e.node.slice, ast.Constant) and isinstance(
+                        e.node.slice.value, str):
+                base = te.expand(e.node.value)
+                # the credentials mapping: the parameter, or what the
+                # context mapper made of it
+                bt = U(base)
+                if bt == creds_p or 'to_policy_values' in bt or (
+                        isinstance(e.node.value, ast.Name) and
+                        e.node.value.id.startswith('SYM_')):
+                    src = U(te.expand(e.value))
+                    lib.setdefault(e.node.slice.value, (e.line, src))
+    t = tool_table(ctx, tool)
+    mine = set()
+    for p in t.paths:
+        for e in p.events:
+            if e.kind == 'store' and isinstance(e.node, ast.Subscript) and \
+                    isinstance(e.node.slice, ast.Constant):
+                mine.add(e.node.slice.value)
+            if e.kind == 'call' and method_call(e.node, 'update'):
+                for a_ in e.node.args:
+                    a_ = t.expand(a_)
+                    if isinstance(a_, ast.Dict):
+                        mine |= {k.value for k in a_.keys
+                                 if isinstance(k, ast.Constant)}
+                mine |= {k.arg for k in e.node.keywords if k.arg}
+        for d in t.en.defs.values():
+            if isinstance(d, ast.Call) and isinstance(
+                    d.func, ast.Name) and d.func.id == 'dict':
+                mine |= {k.arg for k in d.keywords if k.arg}
+    F = ctx.where(tool.module, tool.node)
+    for key, (line, src) in sorted(lib.items()):
+        ok = key in mine
+        ctx.ob('C19.CREDS', ok, F, tool.qual,
+               'credential %r added by enforce() (policy.py:%d, from %s)' % (
+                   key, line, src[:40]),
+               'added by the checker as well' if ok else
+               'Enforcer.enforce() puts %r into the credentials before it '
+               'evaluates (%s), the checker does not: a check that reads '
+               'that credential (`%s:...`) is decided on different '
+               'credentials by the tool and by the library' % (key, src[:50],
+                                                               key))
+    ctx.floor('C19.CREDS', len(lib), 1, 'credentials enforce() adds')
+
+
 def check_eval_guard(ctx, tool):
     """An error while evaluating one policy is reported for that policy and
     the listing goes on: the rule call of the evaluator is covered - there,
@@ -723,6 +781,7 @@ def check(ctx):
     check_duck(ctx)
     check_lookup(ctx, tool)
     check_eval_guard(ctx, tool)
+    check_creds_mirror(ctx, tool)
     # C19.STATELESS: a verdict depends on the files of this call only
     from ..modstate import state_uses
     region = {q: f for q, f in prog.region(tool).items()
